@@ -142,6 +142,14 @@ impl<'a, T: Read + Seek> QueueReader<'a, T> {
                     }
                 }
 
+                // Without any record of non-zero bit size the number of points
+                // in the packet is unknown and nothing bounds the queues.
+                if min_queue_size == usize::MAX {
+                    Error::not_implemented(
+                        "Point clouds without any record of non-zero bit size are not supported",
+                    )?
+                }
+
                 self.parse_byte_streams(min_queue_size)?;
             }
         };
